@@ -575,6 +575,14 @@ def class_level_containers(prog, classes=STORAGE_CLASSES + ("Datastore", "Bucket
                 rebound = any(isinstance(n, (ast.Assign, ast.AnnAssign)) and any(norm(t) == f"self.{a}" for t in (n.targets if isinstance(n, ast.Assign) else [n.target])) for n in walk_own(ci.methods["__init__"].node)) if "__init__" in ci.methods else False
                 if mutated and not rebound:
                     out.append((ci, a, v))
+            elif isinstance(v, ast.Call) and isinstance(v.func, ast.Name) and v.func.id in prog.class_by_name:
+                # an instance of a package class with mutable fields, created once in the class body
+                kcs = prog.class_by_name[v.func.id]
+                stateful = any(isinstance(n, ast.Attribute) and isinstance(n.ctx, ast.Store) and isinstance(n.value, ast.Name) and n.value.id == "self" for k in kcs for m in k.methods.values() if m.name != "__init__" for n in ast.walk(m.node))
+                rebound = any(isinstance(n, (ast.Assign, ast.AnnAssign)) and any(norm(t) == f"self.{a}" for t in (n.targets if isinstance(n, ast.Assign) else [n.target])) for n in walk_own(ci.methods["__init__"].node)) if "__init__" in ci.methods else False
+                used = any(isinstance(n, ast.Attribute) and norm(n) == f"self.{a}" for m in ci.methods.values() for n in walk_with_nested_exprs(m.node))
+                if stateful and used and not rebound:
+                    out.append((ci, a, v))
     return out
 
 
